@@ -428,6 +428,21 @@ class Program:
                     return {"str": str, "int": int, "bool": bool, "abs": abs}[cname](v_)
                 except (ValueError, TypeError):
                     raise CannotFold(f"conversion fails: {unparse(node)[:60]}")
+            if cname == "isinstance" and len(node.args) == 2 and not node.keywords:
+                types_ = {"int": int, "str": str, "bool": bool, "tuple": tuple, "list": list, "dict": dict, "bytes": bytes, "float": float}
+                t_ = node.args[1]
+                names_ = [unparse(x) for x in t_.elts] if isinstance(t_, ast.Tuple) else [unparse(t_)]
+                if all(n_ in types_ for n_ in names_):
+                    return isinstance(f(node.args[0]), tuple(types_[n_] for n_ in names_))
+                if env is not None and env.get("__strict__") and unparse(node.args[0]) in types_:
+                    raise EvalError(f"`{unparse(node)[:60]}` raises TypeError")
+                raise CannotFold(f"isinstance not foldable: {unparse(node)[:60]}")
+            if cname in ("itertools.dropwhile", "itertools.takewhile", "filter", "map") and len(node.args) == 2 and not node.keywords:
+                import itertools as _it
+                fn_ = f(node.args[0])
+                if not callable(fn_):
+                    raise CannotFold(f"{cname} without a foldable function: {unparse(node)[:60]}")
+                return list({"itertools.dropwhile": _it.dropwhile, "itertools.takewhile": _it.takewhile, "filter": filter, "map": map}[cname](fn_, f(node.args[1])))
             if cname in ("enumerate", "zip", "range", "reversed") and not any(k.arg is None for k in node.keywords):
                 try:
                     return list({"enumerate": enumerate, "zip": zip, "range": range, "reversed": reversed}[cname](*[f(a) for a in node.args], **{k.arg: f(k.value) for k in node.keywords}))
@@ -533,6 +548,9 @@ class Program:
             return not f(node.operand)
         if isinstance(node, ast.IfExp):
             return f(node.body) if f(node.test) else f(node.orelse)
+        if isinstance(node, ast.Lambda) and not node.args.vararg and not node.args.kwarg and not node.args.kwonlyargs and not node.args.defaults:
+            names_l = [a_.arg for a_ in node.args.args]
+            return lambda *vals, _n=names_l, _b=node.body, _e=dict(env or {}): self.fold(mod, _b, dict(_e, **dict(zip(_n, vals))))
         if isinstance(node, ast.Compare) and len(node.ops) == 1:
             l, r = f(node.left), f(node.comparators[0])
             op = node.ops[0]
@@ -618,6 +636,10 @@ class Program:
                 self._propagate(mod, st.body if self.fold(mod, st.test, env) else st.orelse, env, who, depth + 1)
             elif isinstance(st, (ast.Pass, ast.Assert)):
                 continue
+            elif isinstance(st, ast.Expr) and isinstance(st.value, ast.Call) and unparse(st.value.func).startswith(("logger.", "logging.")):
+                continue          # logging has no effect on the values
+            elif isinstance(st, ast.Expr) and isinstance(st.value, ast.Constant):
+                continue
             elif isinstance(st, ast.Expr) and isinstance(st.value, ast.Yield) and "__yields__" in env:
                 env["__yields__"].append(self.fold(mod, st.value.value, env) if st.value.value is not None else None)
             elif isinstance(st, ast.Expr) and isinstance(st.value, ast.YieldFrom) and "__yields__" in env:
@@ -638,6 +660,11 @@ class Program:
                     raise CannotFold(f"loop bound exceeded: {who}")
             elif isinstance(st, ast.Return) and "__return__" in env:
                 raise _FuncReturn(self.fold(mod, st.value, env) if st.value is not None else None)
+            elif isinstance(st, ast.Raise) and env.get("__strict__"):
+                exc_ = st.exc.func if isinstance(st.exc, ast.Call) else st.exc
+                err_ = EvalError(f"raises {unparse(exc_) if exc_ is not None else 'the active exception'}")
+                err_.raised = unparse(exc_) if exc_ is not None else None          # type: ignore[attr-defined]
+                raise err_
             elif isinstance(st, ast.Break):
                 raise _LoopBreak()
             elif isinstance(st, ast.Continue):
